@@ -26,6 +26,7 @@ type c20Args struct {
 	Packer  bool   `json:"packer"`  // plus one goroutine calling CreatePushPullPack
 	Stmt    bool   `json:"stmt"`    // every statement boundary of transaction.go is a scheduling point
 	Many    bool   `json:"many"`    // positional scenario: the calls delete / update SEVERAL elements at once (ranges)
+	Kept    bool   `json:"kept"`    // (doc) the plain calls go through a handle the application kept from the body of an earlier, finished transaction
 }
 
 func init() {
@@ -88,6 +89,13 @@ func init() {
 				mu.Unlock()
 			}
 			var acts []activity
+			var kept orda.DocumentInTx
+			if a.Kept && a.Type == "doc" {
+				r.doc.Transaction("earlier", func(d orda.DocumentInTx) error {
+					kept = d // bound to the context of this transaction, which ends here
+					return nil
+				})
+			}
 			call := func(name string, delta int32, tag string) func() {
 				return func() {
 					switch a.Type {
@@ -96,7 +104,11 @@ func init() {
 							note(name, int(delta))
 						}
 					case "doc":
-						if _, err := r.doc.PutToObject(tag, tag); err == nil {
+						var target orda.DocumentInTx = r.doc
+						if kept != nil {
+							target = kept
+						}
+						if _, err := target.PutToObject(tag, tag); err == nil {
 							note(name, 1)
 						}
 					default:
